@@ -237,4 +237,210 @@ theorem C03_list_history (env : Env) (ops : List ListOp) : ∀ (l : TList), Idem
 example : (listStep envT ⟨.int none none F0, 2, none, [.int 1, .int 2]⟩ (.delitem 0)).2 = some .value := by rfl
 example : (listStep envT ⟨.int none none F0, 0, some 2, [.int 1, .int 2]⟩ (.rebind [(0, true, .int 9)])).2 = some .value := by rfl
 
+
+/-! ## Typed dict / object -/
+
+/-- The trust placed in an already typed container argument: it conforms to the spec it is bound
+to, and the destination's compatibility verdict is sound for it.  (For plain values nothing is
+assumed.)  This is where the C04 compatibility findings (F09, F09b, F40–F43) reach C03: see
+`C03_dict_typed_counterexample`. -/
+def ArgTrusted (env : Env) (fields : List Field) (p : Bool) (k : String) : Arg → Prop
+  | .plain _ => True
+  | .typed src sp v => ∀ f, getField env fields k = some f →
+      isCompatible env f.value src = true → sp = p → apply env f.value p v = .ok v
+
+theorem applyArg_fixed (env : Env) (fields : List Field) (p : Bool) (pb : Val → Bool) (k : String)
+    (f : Field) (hf : getField env fields k = some f) (hI : Idem env p f.value) (a : Arg)
+    (ht : ArgTrusted env fields p k a) (w : Val) (h : applyArg env f.value p pb a = .ok w) :
+    apply env f.value p w = .ok w := by
+  cases a with
+  | plain v => exact hI v w h
+  | typed src sp v =>
+    simp only [applyArg] at h
+    split at h
+    · exact hI v w h
+    · split at h
+      · cases h
+      · rename_i hcomp
+        split at h
+        · rename_i hsp
+          injection h with h; subst h
+          exact ht f hf (by simpa using hcomp) (by simpa using hsp)
+        · split at h
+          · cases h
+          · exact hI v w h
+
+/-- The dict write primitive (`d[k] = v`, `__setattr__`, one entry of update / rebind, `del`)
+preserves the invariant, successful or failed — any schema whose field specs have idempotent
+`apply`, plain or trusted typed arguments, either `allow_partial` mode. -/
+theorem C03_dict_prim_preserve (env : Env) (p : Bool) (pb : Val → Bool) (d : TDict) (k : String) (a : Arg)
+    (hI : ∀ f ∈ d.fields, Idem env p f.value) (ht : ArgTrusted env d.fields p k a)
+    (hc : ConformsD env p d) :
+    ConformsD env p (dictPrim env p pb d k a).1 ∧ (dictPrim env p pb d k a).1.fields = d.fields := by
+  unfold dictPrim
+  cases hg : getField env d.fields k with
+  | none => exact ⟨hc, rfl⟩
+  | some f =>
+    obtain ⟨ks, spec⟩ := f
+    have hmem : Field.mk ks spec ∈ d.fields := by
+      unfold getField at hg
+      cases h1 : d.fields.find? (fun f => f.key == KeySpec.const k) with
+      | some g => simp only [h1] at hg; injection hg with hg; subst hg; exact List.mem_of_find?_eq_some h1
+      | none => simp only [h1] at hg; exact List.mem_of_find?_eq_some hg
+    simp only []
+    split
+    · rename_i hdel
+      simp only [Bool.and_eq_true, Bool.not_eq_true'] at hdel
+      refine ⟨⟨?_, ?_⟩, rfl⟩
+      · intro kv hkv
+        simp only [eraseKey, List.mem_filter] at hkv
+        exact hc.1 kv hkv.1
+      · intro k' hk'
+        have hne : k' ≠ k := by
+          intro heq; subst heq
+          exact not_const_of_getField env d.fields k' _ hg (by simpa [Field.key] using hdel.2) hk'
+        exact lookup_eraseKey_isSome _ _ _ hne (hc.2 k' hk')
+    · cases hap : applyArg env spec p pb (if a.val.isMissing = true then Arg.plain spec.flags.default else a) with
+      | error e => exact ⟨hc, rfl⟩
+      | ok w =>
+        refine ⟨⟨?_, ?_⟩, rfl⟩
+        · intro kv hkv
+          rcases mem_setKey _ _ _ _ hkv with h | h
+          · exact hc.1 kv h
+          · subst h
+            refine ⟨.mk ks spec, hg, ?_⟩
+            refine applyArg_fixed env d.fields p pb k (.mk ks spec) hg (hI _ hmem) _ ?_ w hap
+            split
+            · trivial
+            · exact ht
+        · intro k' hk'
+          exact lookup_setKey_isSome _ _ _ _ (hc.2 k' hk')
+
+/-- A rejected dict write stores nothing. -/
+theorem C03_dict_prim_reject (env : Env) (p : Bool) (pb : Val → Bool) (d : TDict) (k : String) (a : Arg) (e : E)
+    (h : (dictPrim env p pb d k a).2 = some e) : (dictPrim env p pb d k a).1 = d := by
+  unfold dictPrim at h ⊢
+  cases hg : getField env d.fields k with
+  | none => rfl
+  | some f =>
+    obtain ⟨ks, spec⟩ := f
+    simp only [hg] at h ⊢
+    split
+    · rename_i hdel; simp [hdel] at h
+    · rename_i hdel
+      simp only [hdel] at h
+      cases hap : applyArg env spec p pb (if a.val.isMissing = true then Arg.plain spec.flags.default else a) with
+      | error e' => rfl
+      | ok w => simp [hap] at h
+
+/-- Batched writes (`update`, `|=`, `rebind`): the invariant holds after the batch, complete or
+stopped at its first rejected entry (the state is then the one after the successful prefix). -/
+theorem C03_dict_batch_preserve (env : Env) (p : Bool) (pb : Val → Bool) (kvs : List (String × Arg)) :
+    ∀ (d : TDict), (∀ f ∈ d.fields, Idem env p f.value) →
+      (∀ kv ∈ kvs, ArgTrusted env d.fields p kv.1 kv.2) → ConformsD env p d →
+      ConformsD env p (dictBatch env p pb d kvs).1 ∧ (dictBatch env p pb d kvs).1.fields = d.fields := by
+  induction kvs with
+  | nil => intro d _ _ hc; exact ⟨hc, rfl⟩
+  | cons kv kvs ih =>
+    intro d hI ht hc
+    obtain ⟨k, a⟩ := kv
+    have h1 := C03_dict_prim_preserve env p pb d k a hI (ht (k, a) List.mem_cons_self) hc
+    simp only [dictBatch]
+    cases hp : dictPrim env p pb d k a with
+    | mk d' e =>
+      rw [hp] at h1
+      cases e with
+      | some e => exact h1
+      | none =>
+        simp only []
+        have := ih d' (by rw [h1.2]; exact hI)
+          (fun kv hkv => by rw [h1.2]; exact ht kv (List.mem_cons_of_mem _ hkv)) h1.1
+        exact ⟨this.1, by rw [this.2, h1.2]⟩
+
+/-- What is *assumed* about `Schema.apply` on the empty dict (used by `clear` only; modelled and
+checked by correspondence, not proved): its result conforms. -/
+def ClearConforms (env : Env) (p : Bool) (fields : List Field) : Prop :=
+  ∀ kvs, schemaApply env fields p [] = .ok kvs → ConformsD env p ⟨fields, kvs⟩
+
+def DictOp.trusted (env : Env) (fields : List Field) (p : Bool) : DictOp → Prop
+  | .setitem k a => ArgTrusted env fields p k a
+  | .setdefault k a => ArgTrusted env fields p k a
+  | .update kvs => ∀ kv ∈ kvs, ArgTrusted env fields p kv.1 kv.2
+  | _ => True
+
+/-- EVERY modelled dict / object mutator preserves the invariant, successful or failed. -/
+theorem C03_dict_preserve (env : Env) (p : Bool) (pb : Val → Bool) (d : TDict) (op : DictOp)
+    (hI : ∀ f ∈ d.fields, Idem env p f.value) (ht : op.trusted env d.fields p)
+    (hclear : ClearConforms env p d.fields) (hc : ConformsD env p d) :
+    ConformsD env p (dictStep env p pb d op).1 := by
+  cases op with
+  | setitem k a => exact (C03_dict_prim_preserve env p pb d k a hI ht hc).1
+  | delitem k =>
+    simp only [dictStep]
+    split
+    · exact hc
+    · exact (C03_dict_prim_preserve env p pb d k (.plain .missing) hI trivial hc).1
+  | setdefault k a =>
+    simp only [dictStep]
+    split
+    · split
+      · exact (C03_dict_prim_preserve env p pb d k a hI ht hc).1
+      · exact hc
+    · exact (C03_dict_prim_preserve env p pb d k a hI ht hc).1
+  | update kvs => exact (C03_dict_batch_preserve env p pb kvs d hI ht hc).1
+  | clear =>
+    simp only [dictStep]
+    cases hs : schemaApply env d.fields p [] with
+    | ok kvs => exact hclear kvs hs
+    | error e => exact hc
+  | popitem => exact hc
+
+/-- FULL STATEMENT without the trust hypothesis on typed arguments. -/
+def C03_dict_preserve_Full : Prop :=
+  ∀ (env : Env) (p : Bool) (pb : Val → Bool) (d : TDict) (k : String) (a : Arg),
+    (∀ f ∈ d.fields, Idem env p f.value) → ConformsD env p d → ConformsD env p (dictPrim env p pb d k a).1
+
+/-- F63 (replayed on the real code): a `pg.List([], value_spec=List(Int()))` assigned to a field
+declared `List(Int(), min_size=2)` is stored without validation, because
+`List(min_size=2).is_compatible(List())` is True (C04 F09b). -/
+theorem C03_dict_typed_counterexample : ¬ C03_dict_preserve_Full := by
+  intro h
+  let fields := [Field.mk (.const "w") (.list (.int none none F0) 2 none F0)]
+  have hI : ∀ f ∈ fields, Idem envT false f.value := by
+    intro f hf
+    simp only [fields, List.mem_singleton] at hf
+    subst hf
+    exact idem_of_frag envT false _ (by rfl)
+  have hc : ConformsD envT false ⟨fields, [("w", .list [.int 1, .int 2])]⟩ := by
+    refine ⟨?_, ?_⟩
+    · intro kv hkv
+      simp only [List.mem_singleton] at hkv
+      subst hkv
+      exact ⟨_, rfl, rfl⟩
+    · intro k hk
+      simp only [fields, constKeys, List.mem_singleton] at hk
+      subst hk; rfl
+  have hres : (dictPrim envT false (fun _ => false) ⟨fields, [("w", .list [.int 1, .int 2])]⟩ "w"
+      (.typed (.list (.int none none F0) 0 none F0) false (.list []))).1.kvs = [("w", .list [])] := by rfl
+  have := (h envT false (fun _ => false) ⟨fields, [("w", .list [.int 1, .int 2])]⟩ "w"
+    (.typed (.list (.int none none F0) 0 none F0) false (.list [])) hI hc).1 ("w", .list []) (by
+      rw [hres]; exact List.mem_singleton.2 rfl)
+  obtain ⟨f, hf, hap⟩ := this
+  simp only [getField, fields, List.find?_cons, Field.key, beq_self_eq_true] at hf
+  injection hf with hf
+  subst hf
+  have e : apply envT (Field.mk (KeySpec.const "w") ((Spec.int none none F0).list 2 none F0)).value false
+      ("w", Val.list []).snd = .error .value := by rfl
+  rw [e] at hap
+  cases hap
+
+/-- Non-vacuity. -/
+example : ConformsD envT false ⟨[Field.mk (.const "x") (.int (some 0) none F0)], [("x", .int 1)]⟩ :=
+  ⟨by intro kv hkv; simp at hkv; subst hkv; exact ⟨_, rfl, rfl⟩,
+   by intro k hk; simp [constKeys] at hk; subst hk; rfl⟩
+example : (dictPrim envT false (fun _ => false) ⟨[Field.mk (.const "x") (.int (some 0) none F0)], [("x", .int 1)]⟩ "x"
+    (.plain (.int (-1)))).2 = some .value := by rfl
+example : (dictPrim envT false (fun _ => false) ⟨[Field.mk (.const "x") (.int (some 0) none F0)], [("x", .int 1)]⟩ "q"
+    (.plain (.int 1))).2 = some .key := by rfl
+
 end Pg.C03
